@@ -145,4 +145,41 @@ PROPS = {
             "implementation returned a different value/error kind on this input (for spec-disagreement: a different multiple than "
             "the one the rounding mode prescribes counted from midnight).",
     },
+    "C17": {
+        "lean_modules": ["TemporalModel.Props.C17"],
+        "suites": ["c17"],
+        "level_text": "Proof: C17_date_with_spec (PlainDate::with = the reference merge for every receiver, all 2^k subsets of "
+                      "supplied fields, every field value, both overflow modes: supplied field else receiver's; month/monthCode "
+                      "agreement; clamp under constrain, RangeError under reject), C17_time_with_spec, C17_date_with_self / "
+                      "C17_time_with_self (identity law), C17_year_untouched, C17_empty_is_type, C17_missing_is_type. Tie: exhaustive "
+                      "product of boundary pools (12 years x 10 months x 10 month codes x 11 days, '-' included so every subset occurs) "
+                      "for PlainDate from_partial/with, random products for PlainTime/PlainDateTime with/from_partial and the "
+                      "constructors, identity-law lines.",
+        "level_note": "Trusted: Lean kernel (+propext, Classical.choice, Quot.sound); hand model of the fallback-merge macro, "
+                      "ResolvedCalendarFields / resolve_iso_month / MonthCode (ISO calendar only), IsoTime::new/with; "
+                      "PlainDateTime/PlainYearMonth with/from_partial are modelled and compared, their merge theorems follow the "
+                      "PlainDate/PlainTime ones by composition and are not separately stated. ZonedDateTime::with is unimplemented in the "
+                      "crate (not claimed). Harness + diff.",
+        "why_difference_is_violation":
+            "C17_* theorems prove the model equals the reference merge; the implementation produced a different value or error kind "
+            "for this partial record.",
+        "exhaustive_quick": False,
+    },
+    "C18": {
+        "lean_modules": ["TemporalModel.Props.C18"],
+        "suites": ["c18"],
+        "level_text": "Proof: C18_canonical_from_fields / C18_canonical_routes (every non-constructor route - fields, with, from a date, "
+                      "arithmetic - yields hidden day 1), C18_canonical_month_day (reference year 1972), C18_rejects_weeks_days, "
+                      "C18_limits (accepted iff -271821-04 <= (y,m) <= 275760-09), C18_month_day_feb29. Tie: every month of boundary "
+                      "years through every route (constructor with/without reference, partial with/without day, strings with/without "
+                      "day/time/annotation/basic form, from a date), all 14x33 month-day cells in both modes, year-month "
+                      "add/subtract/until/since/compare/with on random and limit year-months.",
+        "level_note": "Trusted: Lean kernel (+propext, Classical.choice, Quot.sound); hand model of year_month.rs / month_day.rs / "
+                      "calendar.rs *_from_partial; the string routes use a small reader for the generated forms (the grammar itself is "
+                      "C12); the hidden day is observed through to_ixdtf_string(DisplayCalendar::Always); year-month until/since with "
+                      "rounding options is C08's machinery. Harness + diff.",
+        "why_difference_is_violation":
+            "C18_* theorems prove the model's year-months/month-days are canonical and count whole months; the implementation "
+            "returned a different (hidden) field, duration or error kind on this input.",
+    },
 }
